@@ -1,5 +1,5 @@
-(* C18: the replay plan satisfies the ORACLE (Spec_C18.replay_ok) when the two defect patterns are
-   excluded -- the hypotheses whose negations are the classifiers of the known findings. *)
+(* C18: the replay plan satisfies the ORACLE (Spec_C18.replay_ok) for every store and range, provided that
+   End = 0 or nothing is stored beyond End (the remaining defect: the final gap fill overreaches). *)
 From Coq Require Import NArith ZArith List Bool Lia.
 From F8 Require Import Sess.Bytes Sess.Msg Sess.Persist Sess.Session Sess.SessLemmas.
 From F8 Require Import C18.Spec_C18 C18.Replay C18.ReplayProofs C18.PlanProofs.
@@ -50,68 +50,7 @@ Proof.
     + eapply IH; eauto.
 Qed.
 
-(* ---- the plan when the stored numbers in the range are contiguous from Begin -------------------------------- *)
-Definition pmsgs (recs : list (N * bytes)) : list pitem := map (fun kv => PMsg (fst kv) (snd kv)) recs.
-
-Lemma plan_loop_contig : forall recs n b last from,
-  contig from recs = true -> 0 < from ->
-  (last = 0 -> from = b) -> (last <> 0 -> from = last + 1) ->
-  plan_loop n b last recs =
-  (pmsgs recs, match recs with [] => last | _ => from + N.of_nat (length recs) - 1 end).
-Proof.
-  induction recs as [|[k raw] r IH]; intros n b last from C F H0 H1; [reflexivity|].
-  cbn [contig] in C. apply andb_true_iff in C. destruct C as [C1 C2]. apply N.eqb_eq in C1. subst k.
-  cbn [plan_loop]. rewrite (IH n b from (from + 1)) by (try assumption; lia).
-  assert (G : gap_before n b last from = []).
-  { unfold gap_before. destruct (last =? 0) eqn:Z; cbn [negb].
-    - apply N.eqb_eq in Z. rewrite (H0 Z). rewrite N.ltb_irrefl. reflexivity.
-    - apply N.eqb_neq in Z. rewrite (H1 Z). rewrite N.ltb_irrefl. reflexivity. }
-  rewrite G. cbn [app pmsgs map fst snd]. f_equal.
-  destruct r as [|x r']; cbn [length]; [lia|]. rewrite !Nat2N.inj_succ. lia.
-Qed.
-
-Lemma contig_keys : forall recs from k raw, contig from recs = true -> In (k, raw) recs ->
-  from <= k < from + N.of_nat (length recs).
-Proof.
-  induction recs as [|[a w] r IH]; intros from k raw C I; [destruct I|].
-  cbn [contig] in C. apply andb_true_iff in C. destruct C as [C1 C2]. apply N.eqb_eq in C1. subst a.
-  cbn [length]. rewrite Nat2N.inj_succ. destruct I as [I|I].
-  - inversion I; subst. lia.
-  - specialize (IH _ _ _ C2 I). lia.
-Qed.
-
-Lemma contig_all_le : forall recs from hi, contig from recs = true -> recs <> [] ->
-  (forall k raw, In (k, raw) recs -> k <= hi) -> from + N.of_nat (length recs) <= hi + 1.
-Proof.
-  induction recs as [|[a w] r IH]; intros from hi C NE H; [congruence|].
-  cbn [contig] in C. apply andb_true_iff in C. destruct C as [C1 C2]. apply N.eqb_eq in C1. subst a.
-  cbn [length]. rewrite Nat2N.inj_succ. destruct r as [|x r'].
-  - cbn [length]. specialize (H from w ltac:(left; reflexivity)). lia.
-  - specialize (IH (from + 1) hi C2 ltac:(discriminate) ltac:(intros; eapply H; right; eassumption)). lia.
-Qed.
-
 (* ---- the oracle's walk ---------------------------------------------------------------------------------------- *)
-Lemma walk_stored : forall st lo recs from cnt its rest,
-  sorted_from lo st = true ->
-  contig from recs = true -> (forall k raw, In (k, raw) recs -> In (k, raw) st) ->
-  (length recs <= cnt)%nat ->
-  Forall2 abs1 (pmsgs recs) its ->
-  walk st (nrange from cnt) 0 false (its ++ rest) =
-  walk st (nrange (from + N.of_nat (length recs)) (cnt - length recs)) 0 false rest.
-Proof.
-  intros st lo. induction recs as [|[k raw] r IH]; intros from cnt its rest S C SUB L F.
-  - inversion F; subst. cbn [length app]. rewrite N.add_0_r, Nat.sub_0_r. reflexivity.
-  - cbn [contig] in C. apply andb_true_iff in C. destruct C as [C1 C2]. apply N.eqb_eq in C1. subst k.
-    cbn [pmsgs map fst snd] in F. inversion F as [|p i ps is A1 A2]; subst.
-    destruct A1 as (t & -> & FT).
-    cbn [length] in L. destruct cnt as [|cnt]; [lia|].
-    cbn [nrange walk app]. rewrite (store_get_in st lo from raw S) by (apply SUB; left; reflexivity).
-    cbn [N.ltb N.compare]. replace (from <? 0) with false by (symmetry; apply N.ltb_ge; lia).
-    rewrite FT. rewrite (IH (from + 1) cnt is rest S C2) by (try assumption; try lia; intros; apply SUB; right; assumption).
-    cbn [length]. rewrite Nat2N.inj_succ. replace (from + 1 + N.of_nat (length r)) with (from + N.succ (N.of_nat (length r))) by lia.
-    reflexivity.
-Qed.
-
 Lemma walk_covered : forall st cnt from cover,
   (forall k, from <= k < from + N.of_nat cnt -> store_get k st = None /\ k < cover) ->
   walk st (nrange from cnt) cover true [] = Some [].
@@ -125,118 +64,222 @@ Qed.
 Lemma last_newseq_app : forall a b d, last_newseq (a ++ b) d = last_newseq b (last_newseq a d).
 Proof. induction a as [|x a IH]; intros b d; [reflexivity|]. cbn [app last_newseq]. destruct x; apply IH. Qed.
 
-Lemma last_newseq_msgs : forall recs its d, Forall2 abs1 (pmsgs recs) its -> last_newseq its d = d.
+
+(* numbers covered by the gap fill seen last are skipped *)
+Lemma walk_skip : forall st d c from cover its,
+  (forall x, from <= x < from + N.of_nat d -> store_get x st = None /\ x < cover) ->
+  walk st (nrange from (d + c)) cover true its = walk st (nrange (from + N.of_nat d) c) cover true its.
 Proof.
-  induction recs as [|[k raw] r IH]; intros its d F; inversion F; subst; [reflexivity|].
-  match goal with H : abs1 _ _ |- _ => destruct H as (t & -> & _) end. cbn [last_newseq]. apply IH. assumption.
+  intros st. induction d as [|d IH]; intros c from cover its H.
+  - cbn [plus N.of_nat]. rewrite N.add_0_r. reflexivity.
+  - cbn [plus nrange walk]. rewrite Nat2N.inj_succ in H.
+    destruct (H from ltac:(lia)) as [H1 H2]. rewrite H1.
+    replace (from <? cover) with true by (symmetry; apply N.ltb_lt; exact H2).
+    rewrite IH by (intros x X; apply H; lia). f_equal. f_equal. rewrite Nat2N.inj_succ. lia.
 Qed.
 
-Lemma skips_msgs : forall st recs its, Forall2 abs1 (pmsgs recs) its -> forallb (gap_skips_nothing st) its = true.
+(* a run of d+1 numbers without stored message, announced by one gap fill from its first number *)
+Lemma walk_gap_run : forall st d c from cover its,
+  (forall x, from <= x < from + N.of_nat (S d) -> store_get x st = None) -> cover <= from ->
+  walk st (nrange from (S d + c)) cover false (IGap from (from + N.of_nat (S d)) :: its) =
+  walk st (nrange (from + N.of_nat (S d)) c) (from + N.of_nat (S d)) true its.
 Proof.
-  induction recs as [|[k raw] r IH]; intros its F; inversion F; subst; [reflexivity|].
-  match goal with H : abs1 _ _ |- _ => destruct H as (t & -> & _) end. cbn [forallb gap_skips_nothing]. apply IH. assumption.
+  intros st d c from cover its H C. cbn [plus nrange walk].
+  rewrite (H from) by (rewrite Nat2N.inj_succ; lia).
+  replace (from <? cover) with false by (symmetry; apply N.ltb_ge; exact C).
+  rewrite N.eqb_refl. replace (from <? from + N.of_nat (S d)) with true by (symmetry; apply N.ltb_lt; rewrite Nat2N.inj_succ; lia).
+  cbn [andb]. rewrite walk_skip.
+  - f_equal. f_equal. rewrite Nat2N.inj_succ. lia.
+  - intros x X. split; [apply H; rewrite Nat2N.inj_succ; lia|rewrite Nat2N.inj_succ; lia].
+Qed.
+
+(* where the replay stands after the loop, and every record lies below it *)
+Lemma from_after_loop : forall recs b last,
+  0 < from_of b last -> sorted_from (from_of b last - 1) recs = true ->
+  from_of b last <= from_of b (snd (plan_loop b last recs)) /\
+  (forall k raw, In (k, raw) recs -> from_of b last <= k < from_of b (snd (plan_loop b last recs))).
+Proof.
+  induction recs as [|[k0 raw0] r IH]; intros b last F S.
+  - cbn [plan_loop snd]. split; [lia|]. intros k raw [].
+  - cbn [sorted_from] in S. apply andb_true_iff in S. destruct S as [S1 S2]. apply N.ltb_lt in S1.
+    cbn [plan_loop]. specialize (IH b k0). destruct (plan_loop b k0 r) as [items last']. cbn [snd] in *.
+    assert (F' : from_of b k0 = k0 + 1).
+    { unfold from_of. replace (k0 =? 0) with false by (symmetry; apply N.eqb_neq; lia). reflexivity. }
+    rewrite F' in IH. replace (k0 + 1 - 1) with k0 in IH by lia.
+    destruct (IH ltac:(lia) S2) as [A B]. split; [lia|].
+    intros k raw [I|I]; [inversion I; subst; lia|]. specialize (B _ _ I). lia.
+Qed.
+
+(* the loop's items are consumed by the walk; the end point from + cnt is preserved *)
+Lemma walk_loop : forall st lo recs b last cnt cover its rest,
+  sorted_from lo st = true ->
+  0 < from_of b last -> sorted_from (from_of b last - 1) recs = true -> cover <= from_of b last ->
+  (forall k raw, In (k, raw) recs -> In (k, raw) st /\ k < from_of b last + N.of_nat cnt) ->
+  (forall x k raw, In (k, raw) recs -> from_of b last <= x < k -> (forall raw', ~ In (x, raw') recs) -> store_get x st = None) ->
+  Forall2 abs1 (fst (plan_loop b last recs)) its ->
+  exists cover' c',
+    walk st (nrange (from_of b last) cnt) cover false (its ++ rest) =
+    walk st (nrange (from_of b (snd (plan_loop b last recs))) c') cover' false rest /\
+    cover' <= from_of b (snd (plan_loop b last recs)) /\
+    from_of b (snd (plan_loop b last recs)) + N.of_nat c' = from_of b last + N.of_nat cnt.
+Proof.
+  intros st lo. induction recs as [|[k0 raw0] r IH]; intros b last cnt cover its rest SST F S C SUB UNS AB.
+  - cbn [plan_loop fst snd] in *. inversion AB; subst. exists cover, cnt. cbn [app]. auto.
+  - cbn [sorted_from] in S. apply andb_true_iff in S. destruct S as [S1 S2]. apply N.ltb_lt in S1.
+    set (from := from_of b last) in *.
+    cbn [plan_loop] in *. specialize (IH b k0).
+    destruct (plan_loop b k0 r) as [items last'] eqn:PL. cbn [fst snd] in *.
+    assert (F' : from_of b k0 = k0 + 1).
+    { unfold from_of. replace (k0 =? 0) with false by (symmetry; apply N.eqb_neq; lia). reflexivity. }
+    rewrite F' in IH. replace (k0 + 1 - 1) with k0 in IH by lia.
+    apply Forall2_app_inv_l in AB. destruct AB as (gi & mi & AG & AM & ->).
+    inversion AM as [|p i ps is A1 A2]; subst. destruct A1 as (t & -> & FT).
+    destruct (SUB k0 raw0 ltac:(left; reflexivity)) as [IN0 LT0].
+    assert (NOTIN : forall x, from <= x < k0 -> forall raw', ~ In (x, raw') ((k0, raw0) :: r)).
+    { intros x X raw' [J|J]; [inversion J; lia|]. pose proof (sorted_from_lt _ _ _ _ S2 J). lia. }
+    (* the step over the record itself, from a state (cover0, pg) with cover0 <= k0 *)
+    assert (STEP : forall c cover0 pg, cover0 <= k0 ->
+              walk st (nrange k0 (S c)) cover0 pg (IMsg t :: (is ++ rest)) = walk st (nrange (k0 + 1) c) cover0 false (is ++ rest)).
+    { intros c cover0 pg C0. cbn [nrange walk]. rewrite (store_get_in st lo k0 raw0 SST IN0).
+      replace (k0 <? cover0) with false by (symmetry; apply N.ltb_ge; exact C0). rewrite FT. reflexivity. }
+    assert (SUB' : forall c, k0 + 1 + N.of_nat c = from + N.of_nat cnt ->
+              forall k raw, In (k, raw) r -> In (k, raw) st /\ k < k0 + 1 + N.of_nat c).
+    { intros c EQ k raw J. destruct (SUB k raw (or_intror J)) as [J1 J2]. split; [exact J1|lia]. }
+    assert (UNS' : forall x k raw, In (k, raw) r -> k0 + 1 <= x < k -> (forall raw', ~ In (x, raw') r) -> store_get x st = None).
+    { intros x k raw J X NI. apply (UNS x k raw (or_intror J)); [lia|].
+      intros raw' [Q|Q]; [inversion Q; lia|]. eapply NI; eauto. }
+    rewrite gap_before_from in AG. fold from in AG.
+    destruct (from <? k0) eqn:G.
+    + apply N.ltb_lt in G. inversion AG as [|p i ps is' G1 G2]; subst. inversion G2; subst. cbn [abs1] in G1. subst i.
+      (* d+1 = k0 - from numbers without stored message, then the record *)
+      set (d := (N.to_nat (k0 - from) - 1)%nat).
+      assert (DE : from + N.of_nat (S d) = k0) by (unfold d; lia).
+      assert (CE : exists c, cnt = (S d + S c)%nat).
+      { exists (cnt - S d - 1)%nat. unfold d. lia. }
+      destruct CE as (c & ->).
+      cbn [app].
+      replace (IGap from k0) with (IGap from (from + N.of_nat (S d))) by (rewrite DE; reflexivity).
+      rewrite walk_gap_run; [|intros x X; apply (UNS x k0 raw0 ltac:(left; reflexivity)); [lia|apply NOTIN; lia]|exact C].
+      rewrite DE. rewrite (STEP c k0 true) by lia.
+      destruct (IH c k0 is rest SST ltac:(lia) S2 ltac:(lia) (SUB' c ltac:(lia)) UNS' A2) as (cover' & c' & E & C' & EQ).
+      exists cover', c'. split; [exact E|]. split; [exact C'|]. lia.
+    + apply N.ltb_ge in G. assert (FE : from = k0) by lia. inversion AG; subst gi. cbn [app].
+      assert (CE : exists c, cnt = S c) by (exists (cnt - 1)%nat; lia). destruct CE as (c & ->).
+      rewrite FE. rewrite (STEP c cover false) by lia.
+      destruct (IH c cover is rest SST ltac:(lia) S2 ltac:(lia) (SUB' c ltac:(lia)) UNS' A2) as (cover' & c' & E & C' & EQ).
+      exists cover', c'. split; [exact E|]. split; [exact C'|]. lia.
+Qed.
+
+(* gap fills of the loop skip nothing that is stored *)
+Lemma loop_items_skip : forall st pits its,
+  (forall a k, In (PGap a k) pits -> forall k' raw', In (k', raw') st -> ~ (a <= k' < k)) ->
+  Forall2 abs1 pits its -> forallb (gap_skips_nothing st) its = true.
+Proof.
+  intros st pits its H F. induction F as [|p i ps is A F IH]; [reflexivity|].
+  cbn [forallb]. rewrite IH by (intros; eapply H; [right|]; eassumption). rewrite andb_true_r.
+  destruct p as [a k|k raw]; cbn [abs1] in A.
+  - subst i. cbn [gap_skips_nothing]. apply forallb_forall. intros [k' raw'] I. cbn [fst].
+    apply negb_true_iff. specialize (H a k ltac:(left; reflexivity) k' raw' I).
+    destruct (a <=? k') eqn:Q1; [|reflexivity]. apply N.leb_le in Q1. cbn [andb]. apply N.ltb_ge. lia.
+  - destruct A as (t & -> & _). reflexivity.
 Qed.
 
 (* ---- the theorem ------------------------------------------------------------------------------------------------ *)
 Theorem plan_replay_ok : forall st n b e items,
   store_wf st = true -> keys_below n st = true ->
   0 < b -> (e = 0 \/ b <= e) ->
-  no_gap_before_stored st b e = true ->
   nothing_stored_beyond st n e = true ->
   Forall2 abs1 (fst (plan st n b e)) items ->
   replay_ok st n b e items (snd (plan st n b e)) = true.
 Proof.
-  intros st n b e items WF KB B0 RNG NG NB AB.
-  unfold no_gap_before_stored in NG.
+  intros st n b e items WF KB B0 RNG NB AB.
   set (finish := finish_of st e) in *. set (recs := after (b - 1) finish st) in *.
-  set (len := N.of_nat (length recs)).
-  set (last := match recs with [] => 0 | _ => b + N.of_nat (length recs) - 1 end).
+  assert (F0 : from_of b 0 = b) by reflexivity.
+  assert (SR : sorted_from (b - 1) recs = true).
+  { pose proof (after_sorted st 0 (b - 1) finish WF) as S. replace (N.max 0 (b - 1)) with (b - 1) in S by lia. exact S. }
+  set (last := snd (plan_loop b 0 recs)).
+  set (x := from_of b last).
+  destruct (from_after_loop recs b 0 ltac:(rewrite F0; exact B0) ltac:(rewrite F0; exact SR)) as [XB XK]. rewrite F0 in XB, XK.
+  fold last in XB, XK. fold x in XB, XK.
   assert (KBf : forall k raw, In (k, raw) st -> k < n).
   { intros k raw I. unfold keys_below in KB. rewrite forallb_forall in KB. specialize (KB _ I). cbn [fst] in KB. apply N.ltb_lt. exact KB. }
   assert (INR : forall k raw, In (k, raw) recs <-> In (k, raw) st /\ b <= k <= finish).
   { intros. unfold recs. rewrite after_in. split; intros (A & C); (split; [exact A|lia]). }
-  assert (CK : forall k raw, In (k, raw) recs -> b <= k < b + len) by (intros; eapply contig_keys; eauto).
   set (hi := if (e =? 0) || (n <=? e) then n - 1 else e).
   assert (FIN : forall k raw, In (k, raw) st -> b <= k -> k <= hi -> k <= finish).
   { intros k raw I K1 K2. unfold finish, finish_of, hi in *. destruct (e =? 0) eqn:Z.
     - eapply store_last_ge; eauto.
     - cbn [orb] in K2. destruct (n <=? e) eqn:Q; [apply N.leb_le in Q; specialize (KBf _ _ I); lia|exact K2]. }
-  (* x = the first number after the resent block; ns = the NewSeqNo of the final gap fill *)
-  set (x := b + len).
-  assert (LX : last = 0 /\ recs = [] /\ x = b \/ last <> 0 /\ x = last + 1 /\ recs <> []).
-  { unfold last, x, len. destruct recs as [|r0 r']; [left; cbn; repeat split; lia|right].
-    cbn [length]. rewrite Nat2N.inj_succ. repeat split; try lia. discriminate. }
-  assert (PF : plan_final n b last = (PGap x (if n <=? x then x + 1 else n), if n <=? x then x + 1 else n)).
-  { unfold plan_final. destruct LX as [(L0 & _ & XB)|(L1 & XL & _)].
-    - rewrite L0, XB. reflexivity.
-    - replace (last =? 0) with false by (symmetry; apply N.eqb_neq; exact L1). rewrite XL.
-      replace (last + 2) with (last + 1 + 1) by lia. reflexivity. }
-  set (ns := if n <=? x then x + 1 else n) in *.
-  assert (XNS : x < ns) by (unfold ns; destruct (n <=? x) eqn:Q; [lia|apply N.leb_gt in Q; lia]).
-  assert (PE : plan st n b e = ((pmsgs recs ++ [PGap x ns])%list, ns)).
-  { unfold plan. fold finish. fold recs.
-    rewrite (plan_loop_contig recs n b 0 b NG B0 (fun _ => eq_refl) ltac:(congruence)).
-    fold last. rewrite PF. reflexivity. }
-  rewrite PE in *. cbn [fst snd] in *.
-  apply Forall2_app_inv_l in AB. destruct AB as (its & gl & AB1 & AB2 & ->).
-  inversion AB2 as [|p i ps is G1 G2]; subst. inversion G2; subst. cbn [abs1] in G1. subst i.
-  (* every record is at most hi *)
   assert (RHI : forall k raw, In (k, raw) recs -> k <= hi).
   { intros k raw I. apply INR in I. destruct I as (I1 & I2 & I3). specialize (KBf _ _ I1).
     unfold hi, finish, finish_of in *. destruct (e =? 0); cbn [orb]; [lia|]. destruct (n <=? e); lia. }
-  assert (XHI : recs <> [] -> x <= hi + 1).
-  { intro NE. unfold x, len. eapply contig_all_le; eauto. }
   assert (HIN : hi < n \/ hi = 0).
   { unfold hi. destruct ((e =? 0) || (n <=? e)) eqn:Q; [lia|]. apply orb_false_iff in Q. destruct Q as [_ Q]. apply N.leb_gt in Q. lia. }
-  assert (UNS : forall k, x <= k -> k <= hi -> store_get k st = None).
-  { intros k K1 K2. apply store_get_none. intros raw I.
-    assert (K3 : b <= k) by (unfold x in K1; lia).
-    pose proof (FIN _ _ I K3 K2) as K4. assert (J : In (k, raw) recs) by (apply INR; split; [exact I|lia]).
-    specialize (CK _ _ J). unfold x in K1. lia. }
+  (* numbers of the range that are not records hold nothing *)
+  assert (UNSALL : forall y, b <= y -> y <= hi -> (forall raw, ~ In (y, raw) recs) -> store_get y st = None).
+  { intros y Y1 Y2 NI. apply store_get_none. intros raw I. apply (NI raw). apply INR. split; [exact I|].
+    split; [exact Y1|]. eapply FIN; eauto. }
+  set (ns := if n <=? x then x + 1 else n).
+  assert (XNS : x < ns) by (unfold ns; destruct (n <=? x) eqn:Q; [lia|apply N.leb_gt in Q; lia]).
+  assert (PF : plan_final n b last = (PGap x ns, ns)).
+  { unfold plan_final, ns, x, from_of. destruct (last =? 0) eqn:Z; [reflexivity|].
+    replace (last + 2) with (last + 1 + 1) by lia. reflexivity. }
+  assert (PE : plan st n b e = ((fst (plan_loop b 0 recs) ++ [PGap x ns])%list, ns)).
+  { unfold plan. fold finish. fold recs. unfold last in PF. destruct (plan_loop b 0 recs) as [li la] eqn:PL. cbn [fst snd] in *.
+    rewrite PF. reflexivity. }
+  rewrite PE in *. cbn [fst snd] in *.
+  apply Forall2_app_inv_l in AB. destruct AB as (its & gl & AB1 & AB2 & ->).
+  inversion AB2 as [|p i ps is G1 G2]; subst. inversion G2; subst. cbn [abs1] in G1. subst i.
+  (* no gap fill skips a stored message *)
+  assert (SKL : forallb (gap_skips_nothing st) its = true).
+  { apply (loop_items_skip st (fst (plan_loop b 0 recs))); [|exact AB1].
+    intros a k I k' raw' J [Q1 Q2].
+    destruct (loop_gaps_exact recs b 0 a k ltac:(rewrite F0; exact B0) ltac:(rewrite F0; exact SR) I) as (A1 & A2 & (raw & A3) & A4 & _).
+    rewrite F0 in A1. apply INR in A3. destruct A3 as (A3 & A3' & A3'').
+    apply (A4 k' raw'); [|lia]. apply INR. split; [exact J|lia]. }
   assert (SKIP : gap_skips_nothing st (IGap x ns) = true).
   { cbn [gap_skips_nothing]. apply forallb_forall. intros [k raw] I. cbn [fst]. apply negb_true_iff. apply andb_false_iff.
     destruct (x <=? k) eqn:Q1; [right|left; reflexivity]. apply N.leb_le in Q1. apply N.ltb_ge.
     destruct (N.le_gt_cases ns k) as [|Q2]; [assumption|exfalso].
     pose proof (KBf _ _ I) as KN.
-    assert (K3 : b <= k) by (unfold x in Q1; lia).
     destruct (N.le_gt_cases k hi) as [K2|K2].
-    - pose proof (FIN _ _ I K3 K2) as K4. assert (J : In (k, raw) recs) by (apply INR; split; [exact I|lia]).
-      specialize (CK _ _ J). unfold x in Q1. lia.
+    - pose proof (FIN _ _ I ltac:(lia) K2) as K4. assert (J : In (k, raw) recs) by (apply INR; split; [exact I|lia]).
+      specialize (XK _ _ J). lia.
     - unfold hi in K2. unfold nothing_stored_beyond in NB. destruct (e =? 0) eqn:Z; cbn [orb] in *; [lia|].
       destruct (n <=? e) eqn:Q; [lia|]. rewrite forallb_forall in NB. specialize (NB _ I). cbn [fst] in NB.
-      apply negb_true_iff in NB. apply andb_false_iff in NB. destruct NB as [NB|NB]; [apply N.ltb_ge in NB|apply N.ltb_ge in NB]; lia. }
+      apply negb_true_iff in NB. apply andb_false_iff in NB. destruct NB as [NB|NB]; apply N.ltb_ge in NB; lia. }
   unfold replay_ok. fold hi.
-  rewrite forallb_app, (skips_msgs st recs its AB1). cbn [forallb andb]. rewrite SKIP. cbn [andb].
-  rewrite last_newseq_app, (last_newseq_msgs recs its n AB1). cbn [last_newseq]. rewrite N.eqb_refl, andb_true_r.
-  assert (LEN2 : length its = length recs).
-  { clear - AB1. revert its AB1. induction recs as [|r0 r IH]; intros its F; inversion F; subst; [reflexivity|].
-    cbn [length]. f_equal. apply IH. assumption. }
+  rewrite forallb_app, SKL. cbn [forallb andb]. rewrite SKIP. cbn [andb].
+  rewrite last_newseq_app. cbn [last_newseq]. rewrite N.eqb_refl, andb_true_r.
   destruct (b <=? hi) eqn:BH.
   - apply N.leb_le in BH.
-    assert (LC : (length recs <= N.to_nat (hi + 1 - b))%nat).
-    { destruct recs as [|r0 r'] eqn:RE; [cbn; lia|]. assert (NE : r0 :: r' <> []) by discriminate.
-      specialize (XHI NE). unfold x, len in XHI. lia. }
-    rewrite (walk_stored st 0 recs b (N.to_nat (hi + 1 - b)) its [IGap x ns] WF NG) by (try assumption; intros k raw I; apply INR in I; tauto).
-    fold len. fold x.
-    destruct (N.to_nat (hi + 1 - b) - length recs)%nat as [|c] eqn:CE.
-    + cbn [nrange walk forallb tail_ok]. 
-      assert (XE : hi < x) by (unfold x, len; lia).
-      replace (hi <? x) with true by (symmetry; apply N.ltb_lt; exact XE).
-      replace (x <? ns) with true by (symmetry; apply N.ltb_lt; exact XNS). reflexivity.
-    + assert (XL : x <= hi) by (unfold x, len; lia).
-      cbn [nrange walk]. rewrite (UNS x) by lia. replace (x <? 0) with false by (symmetry; apply N.ltb_ge; lia).
-      rewrite N.eqb_refl. replace (x <? ns) with true by (symmetry; apply N.ltb_lt; exact XNS). cbn [andb].
-      rewrite walk_covered; [reflexivity|].
-      intros k K. split; [apply UNS; unfold x, len in *; lia|].
-      assert (KH : k <= hi) by (unfold x, len in *; lia).
-      unfold ns. destruct (n <=? x) eqn:Q; [apply N.leb_le in Q|apply N.leb_gt in Q]; lia.
+    set (cnt := N.to_nat (hi + 1 - b)).
+    destruct (walk_loop st 0 recs b 0 cnt 0 its [IGap x ns] WF ltac:(rewrite F0; exact B0) ltac:(rewrite F0; exact SR) ltac:(lia))
+      as (cover' & c' & E & C' & EQ); try exact AB1.
+    + rewrite F0. intros k raw I. split; [apply INR in I; tauto|]. specialize (RHI _ _ I). unfold cnt. lia.
+    + rewrite F0. intros y k raw I Y NI. apply UNSALL; try lia; [|exact NI]. specialize (RHI _ _ I). lia.
+    + rewrite F0 in E, EQ. fold last in E, C', EQ. fold x in E, C', EQ. rewrite E.
+      assert (XE : x + N.of_nat c' = hi + 1) by (unfold cnt in EQ; lia).
+      destruct c' as [|c].
+      * cbn [nrange walk forallb tail_ok].
+        replace (hi <? x) with true by (symmetry; apply N.ltb_lt; cbn in XE; lia).
+        replace (x <? ns) with true by (symmetry; apply N.ltb_lt; exact XNS). reflexivity.
+      * rewrite Nat2N.inj_succ in XE.
+        assert (UX : forall y, x <= y -> y <= hi -> store_get y st = None).
+        { intros y Y1 Y2. apply UNSALL; [lia|exact Y2|]. intros raw I. specialize (XK _ _ I). lia. }
+        cbn [nrange walk]. rewrite (UX x) by lia.
+        replace (x <? cover') with false by (symmetry; apply N.ltb_ge; exact C').
+        rewrite N.eqb_refl. replace (x <? ns) with true by (symmetry; apply N.ltb_lt; exact XNS). cbn [andb].
+        rewrite walk_covered; [reflexivity|].
+        intros k K. split; [apply UX; lia|].
+        unfold ns. destruct (n <=? x) eqn:Q; [apply N.leb_le in Q|apply N.leb_gt in Q]; lia.
   - apply N.leb_gt in BH.
     assert (RE : recs = []).
-    { destruct recs as [|[k0 raw0] r']; [reflexivity|]. exfalso.
-      assert (I0 : In (k0, raw0) ((k0, raw0) :: r')) by (left; reflexivity).
-      pose proof (RHI _ _ I0). pose proof (CK _ _ I0). lia. }
-    rewrite RE in *. inversion AB1; subst. cbn [app walk forallb tail_ok].
-    assert (XB : x = b) by (unfold x, len; rewrite RE; cbn; lia). rewrite XB in *.
+    { destruct recs as [|[k0 raw0] r'] eqn:RQ; [reflexivity|]. exfalso.
+      pose proof (RHI k0 raw0 (or_introl eq_refl)). pose proof (XK k0 raw0 (or_introl eq_refl)). lia. }
+    assert (XB' : x = b) by (unfold x, last; rewrite RE; reflexivity).
+    rewrite RE in AB1. cbn [plan_loop fst] in AB1. inversion AB1; subst its. cbn [app walk forallb tail_ok].
+    rewrite XB' in *.
     replace (hi <? b) with true by (symmetry; apply N.ltb_lt; exact BH).
     replace (b <? ns) with true by (symmetry; apply N.ltb_lt; exact XNS). reflexivity.
 Qed.
